@@ -584,6 +584,7 @@ func readConfigInProc(cs *cfgCase, path string, tokens []string) (cfg hermes.Con
 	}()
 	s := hermes.NewHermesSession()
 	defer s.Close()
+	vh.Crumb("readConfig", map[string]interface{}{"config_yml": cs.yamlText(), "no_file": cs.NoFile, "batch_line": tokens})
 	cfg, g = hermes.VerifReadConfig(s, path, cs.Root, argMapOf(tokens))
 	return
 }
@@ -723,6 +724,9 @@ func checkC14(c *vh.Ctx) {
 		}
 	}
 	flush("config.override")
+
+	// ------------------------------------------------------------ A1b: several lines of one session on the same configuration file
+	c14SessionSequences(c, metas)
 
 	// ------------------------------------------------------------ A2: readConfig in-process
 	nFatalWanted := c.N(14, 80)
